@@ -53,6 +53,8 @@ def enumerate_cases(tier, shard, nshards, seed):
     from .. import gen
 
     yield from em.single_edit_grid(gen.saturated_programs() + gen.SYN_PROGRAMS, tier, shard, nshards, seed, thin=3 if tier == 'quick' else 1)
+    yield from em.single_edit_grid(gen.TRIVIA_PROGRAMS + gen.FSTRING_PROGRAMS, tier, shard, nshards, seed, n_expr=4, line_comments=True, cut=True)
+    yield from em.slice_edit_grid(gen.TRIVIA_PROGRAMS, tier, shard, nshards, seed, optsets=({}, {'trivia': 'all'}, {'pep8space': False}), thin=2 if tier == 'quick' else 1)
 
 
 def _context_rich(src_lines, extent) -> bool:
